@@ -96,6 +96,8 @@ func runPacketID(raw json.RawMessage) interface{} {
 		pidChurn(&sc, res)
 	case "resup":
 		pidResup(&sc, res)
+	case "wfail":
+		pidWriteFail(&sc, res)
 	default:
 		res.Infra = "unknown kind " + sc.Kind
 	}
@@ -296,7 +298,8 @@ func (o *pidObserver) hook(t *netsim.Transport, p *netsim.Pkt, outcome string) {
 		}
 		// acknowledged at once (SUBACK / UNSUBACK / PUBACK): the identifier is free again as soon as the
 		// client has processed the acknowledgement, which cannot be before it was sent
-		if outcome == "ok" && !(p.Type == 0x30 && p.QoS == 2) && p.ID != 0 {
+		// (a request whose write failed is over as well: its caller got the error)
+		if (outcome == "ok" && !(p.Type == 0x30 && p.QoS == 2) || outcome == "writeErr") && p.ID != 0 {
 			o.ev = append(o.ev, -p.ID)
 			o.out--
 		}
@@ -535,6 +538,76 @@ func pidResup(sc *pidScenario, res *pidResult) {
 			_, err = cli.Subscribe(ctx, mqtt.Subscription{Topic: fmt.Sprintf("later/%d", k), QoS: mqtt.QoS1})
 		} else {
 			err = cli.Publish(ctx, &mqtt.Message{Topic: "q", QoS: mqtt.QoS1, Payload: netsim.PayloadOf(2 + k)})
+		}
+		if err != nil {
+			res.Infra = "later request failed: " + err.Error()
+			return
+		}
+	}
+	obs.mu.Lock()
+	res.Ev = append([]int{}, obs.ev...)
+	res.MaxOut = obs.max
+	obs.mu.Unlock()
+	cancel()
+	cli.Close()
+	wg.Wait()
+}
+
+// pidWriteFail: the write of a SUBSCRIBE / UNSUBSCRIBE fails while the connection stays open (write deadline), after a
+// concurrent Publish has already drawn the next identifier; that Publish stays outstanding; further requests follow.
+func pidWriteFail(sc *pidScenario, res *pidResult) {
+	first := "SUBSCRIBE"
+	if sc.Via == "unsub" {
+		first = "UNSUBSCRIBE"
+	}
+	plan := netsim.Plan{Writes: []netsim.FaultRule{{P: first, N: 1, O: "writeErr"}, {P: "PUBLISH", N: 1, O: "dropAck"}}}
+	w := netsim.NewWorld(plan)
+	obs := &pidObserver{}
+	w.OnClientPacket = obs.hook
+	gate := w.GateAt("write:2") // CONNECT is request 1
+	ctx, cancel := context.WithTimeout(context.Background(), 20*time.Second)
+	defer cancel()
+	cli, err := pidConnect(ctx, w, sc.start())
+	if err != nil {
+		res.Infra = "connect: " + err.Error()
+		return
+	}
+	var wg sync.WaitGroup
+	wg.Add(1)
+	go func() {
+		defer wg.Done()
+		if first == "SUBSCRIBE" {
+			cli.Subscribe(ctx, mqtt.Subscription{Topic: "s", QoS: mqtt.QoS1})
+		} else {
+			cli.Unsubscribe(ctx, "s")
+		}
+	}()
+	select {
+	case <-gate.Reached():
+	case <-time.After(5 * time.Second):
+		res.Infra = "first request did not reach its write"
+		return
+	}
+	// a Publish draws the next identifier and queues behind the write that is being held
+	wg.Add(1)
+	go func() {
+		defer wg.Done()
+		cli.Publish(ctx, &mqtt.Message{Topic: "p", QoS: mqtt.QoS(sc.AckEvery), Payload: netsim.PayloadOf(1)})
+	}()
+	time.Sleep(5 * time.Millisecond)
+	gate.Release()
+	for t0 := time.Now(); obs.requests() < 2; {
+		if time.Since(t0) > 5*time.Second {
+			res.Infra = "PUBLISH not seen"
+			return
+		}
+		time.Sleep(100 * time.Microsecond)
+	}
+	for k := 0; k < sc.Per; k++ {
+		if k%2 == 0 {
+			err = cli.Publish(ctx, &mqtt.Message{Topic: "q", QoS: mqtt.QoS1, Payload: netsim.PayloadOf(2 + k)})
+		} else {
+			_, err = cli.Subscribe(ctx, mqtt.Subscription{Topic: fmt.Sprintf("later/%d", k), QoS: mqtt.QoS1})
 		}
 		if err != nil {
 			res.Infra = "later request failed: " + err.Error()
